@@ -15,14 +15,21 @@ try:
     na_reasons = json.load(open(os.path.join(ROOT, 'not_applicable.json')))
 except OSError:
     na_reasons = {}
+claimed = json.load(open(os.path.join(ROOT, 'claimed.json')))   # maintained by the coordinator: checks known to be green from a clean tree
 for p in props:
     pid = p['id']
     try:
+        if pid not in claimed:
+            raise RuntimeError('not on the claimed list')
         mod = importlib.import_module(pid.lower())
         m = mod.MANIFEST
         src = open(os.path.join(ROOT, 'coq', 'Props', pid + '.v')).read()
         if 'placeholder' in src:
             raise RuntimeError('Props file is a placeholder')
+        for k in ('level_text', 'level_note', 'technique'):
+            if k not in m:
+                print('WARNING %s: MANIFEST dict lacks %s -- not claimed' % (pid, k))
+                raise RuntimeError('incomplete MANIFEST dict')
     except Exception as e:
         na.append({'property_id': pid, 'reason': na_reasons.get(pid, 'not yet claimed: model and proof for this property are not built yet (work in progress, see DESIGN.md section 9)')})
         continue
